@@ -2,9 +2,14 @@ CONFIG = {
     "level": "proof",
     "passes": [
         {"name": "strings", "pkg": "c18", "bin": "c18", "driver": "drv_c18", "timeout": 1500},
+        # the result-ownership histories and the concurrent callers once more under the race detector
+        {"name": "race", "pkg": "c18", "bin": "c18race", "driver": "drv_c18", "build_flags": ["-race"],
+         "args": ["-only-alias"], "timeout": 1500},
     ],
     "trusted_base": [
         "package bytes (IndexByte, Index, HasPrefix, TrimRight) and bufio.Reader.ReadBytes on a bytes.Reader: modelled as first-occurrence / split functions; agreement checked by the correspondence on every run",
+        "the Go memory model / allocator: `make` returns memory no other live slice refers to (the heap model's `alloc` appends a new backing array); sync.Pool and goroutine scheduling are not modelled -- "
+        "a helper that shares memory between calls is caught by the history correspondence and the concurrent stress (plain and under the race detector), not excluded by proof",
         "libc strlen/strcmp/strcasecmp/strncasecmp/strstr/strcasestr through cgo (C locale): used only as oracles in P-hat, never as proof",
     ],
     "modelled": ["types.Cstrlen", "types.CstrToBytes", "types.Cstrcmp", "types.Cstrcasecmp", "types.Cstrstr", "types.Cstrcasestr",
@@ -12,7 +17,9 @@ CONFIG = {
                  "cmsys.StripAnsi (isEscapeParam, isEscapeCommand, ESCAPE_FLAG)", "types.ReadLine",
                  "cmsys.StringHash", "cmsys.StringHashWithHashBits", "cmsys.fnv1a32StrCase",
                  "cmsys.StripNoneBig5", "cmsys.DBCSNextStatus", "cmsys.DBCSStatus", "cmsys.DBCSSafeTrim", "cmsys.Trim",
-                 "cmsys.StrcaseStartsWith", "types.TrimDBCS", "cmbbs.SubjectEx"],
+                 "cmsys.StrcaseStartsWith", "types.TrimDBCS", "cmbbs.SubjectEx",
+                 "result ownership of every slice-returning helper (heap model Model/C18Alias.lean: StripAnsi/CstrTolower/CstrToupper/ReadLine return fresh memory, "
+                 "CstrToBytes/CstrTokenR/DBCSSafeTrim/Trim/SubjectEx a view of the argument, StripNoneBig5/TrimDBCS work in the caller's array) over histories of calls"],
     "assumptions": [
         "bytes are values below 256 (theorems that index the 256-entry ESCAPE_FLAG table or use the 0x80 bit test carry this as the hypothesis Bytes s)",
         "observations, not judged: O6 Cstrstr(h, \"\") = -1 for empty h (C: 0); DBCSStatus(\"\", pos>=0) panics (its only caller checks the length). "
